@@ -16,6 +16,8 @@
 (*   ball   : the uncaught ball when status = "error"                                       *)
 (*   ev     : observable event produced by the step that led to this state, or NoEv         *)
 (*   qv     : number of query variables (store slots 1..qv)                                 *)
+(*   ukeys  : the predicate keys of the program text (constant); their call ports are the   *)
+(*            observable "call" events                                                      *)
 EXTENDS Terms, IOUtils
 
 Dev_CatchAfterExit == "DEV_CATCH" \in DOMAIN IOEnv /\ IOEnv.DEV_CATCH = "1"
@@ -95,6 +97,8 @@ Throw(s, ball) == [Silent(s) EXCEPT !.goals = <<Frame(Ctl("throw", ball), 0)>> \
 \* the frame below a $throw frame is the current continuation: it is what decides which catch is active
 
 Sto(s) == [Silent(s) EXCEPT !.status = "sto", !.goals = <<>>, !.cps = <<>>, !.ev = [ev |-> "end", kind |-> "sto", out |-> <<>>]]
+\* behaviour the properties leave open: the run is not judged from here on
+Unspec(s) == [Silent(s) EXCEPT !.status = "unspec", !.goals = <<>>, !.cps = <<>>, !.ev = [ev |-> "end", kind |-> "unspec", out |-> <<>>]]
 UnifyStep(s, x, y) == LET u == UnifyS(x, y, s.bind) IN
                       IF u.sto THEN Sto(s) ELSE IF u.ok THEN [Pop(s) EXCEPT !.bind = u.b] ELSE SetFail(s)
 TestStep(s, cond) == IF cond THEN Pop(s) ELSE SetFail(s)
@@ -206,6 +210,12 @@ Backtrack(s) ==
 \* A catch marker is active iff its exit frame is still part of the current continuation.
 \* Dev_CatchAfterExit: named deviation (known finding F1): an exited catch/3 still intercepts.
 ActiveIn(goals, id) == Dev_CatchAfterExit \/ \E i \in 1..Len(goals) : goals[i].g = Ctl("exit_catch", id)
+\* The current continuation is the goal stack plus the continuations suspended by the sub-executions in progress
+\* (findall/3, bagof/3, setof/3, \+/1 run their goal on a goal stack of its own and keep the rest in their marker).
+RECURSIVE SuspendedConts(_)
+SuspendedConts(cps) == IF cps = <<>> THEN <<>>
+                       ELSE LET cp == cps[Len(cps)] IN
+                            (IF cp.k \in {"findall", "bagof", "not"} THEN cp.rest ELSE <<>>) \o SuspendedConts(SubSeq(cps, 1, Len(cps) - 1))
 
 RECURSIVE Unwind(_,_,_,_)
 Unwind(s, ball, cont, h) ==       \* h = index in s.cps being inspected (from the top down)
@@ -251,7 +261,7 @@ Step(s) ==
                 vs == TermVars(r)
                 copy == Renum(r, vs, cp.nacc)
             IN {[SetFail(s) EXCEPT !.cps[idx].acc = Append(@, copy), !.cps[idx].nacc = @ + Len(vs)]}
-       [] fr.g[2] = "throw" -> {Unwind(s, fr.g[3], rest, h)}
+       [] fr.g[2] = "throw" -> {Unwind(s, fr.g[3], rest \o SuspendedConts(s.cps), h)}
   ELSE
   LET g == Walk(fr.g, s.bind) IN
   IF IsVar(g) THEN {Throw(s, InstErr)}
@@ -365,6 +375,25 @@ Step(s) ==
                  IF ~HasPred(s.db, k) THEN {SetFail(s)}
                  ELSE IF ~Pred(s.db, k).dyn THEN {Throw(s, PermModStatic(k))}
                  ELSE {TryRetract(s, pat, Pred(s.db, k).cls, rest, s.bind, s.cps)}
+    [] key = <<"retractall", 1>> ->
+         \* removes every clause of the (dynamic) procedure whose head unifies with the argument; no binding is kept
+         LET hd == Walk(a[1], s.bind) IN
+         IF IsVar(hd) THEN {Throw(s, InstErr)}
+         ELSE IF ~IsCallable(hd) THEN {Throw(s, TypeErr("callable", hd))}
+         ELSE LET k == Key(hd) IN
+              IF ~HasPred(s.db, k) THEN {Unspec(s)}     \* ISO creates the procedure, the implementation does not, the property is silent
+              ELSE IF ~Pred(s.db, k).dyn THEN {Throw(s, PermModStatic(k))}
+              ELSE {[Pop(s) EXCEPT !.db[PredIdx(s.db, k)].cls =
+                       SelectSeq(@, LAMBDA c : ~Unify(hd, Shift(c.head, Len(s.bind)), s.bind \o Fresh(c.nv)).ok)]}
+    [] key = <<"abolish", 1>> ->
+         LET pi == Resolve(a[1], s.bind) IN
+         IF IsVar(pi) THEN {Throw(s, InstErr)}
+         ELSE IF ~(IsCmp(pi) /\ pi[2] = "/" /\ Len(pi[3]) = 2) THEN {Throw(s, TypeErr("predicate_indicator", pi))}
+         ELSE IF IsVar(pi[3][1]) \/ IsVar(pi[3][2]) THEN {Throw(s, InstErr)}
+         ELSE LET k == <<pi[3][1][2], pi[3][2][2]>> IN
+              IF ~HasPred(s.db, k) THEN {Unspec(s)}     \* ISO: succeeds; the implementation raises permission_error; the properties are silent
+              ELSE IF ~Pred(s.db, k).dyn THEN {Throw(s, PermModStatic(k))}
+              ELSE {[Pop(s) EXCEPT !.db = SelectSeq(s.db, LAMBDA p : p.key # k)]}
     [] key = <<"clause", 2>> ->
          LET hd == Walk(a[1], s.bind) IN
          IF IsVar(hd) THEN {Throw(s, InstErr)}
@@ -373,11 +402,17 @@ Step(s) ==
               ELSE IF ~Pred(s.db, k).dyn THEN {Throw(s, PermAccessPrivate(k))}
               ELSE {TrySols(s, C(":-", <<a[1], a[2]>>), [i \in 1..Len(Pred(s.db, k).cls) |-> RuleTerm(Pred(s.db, k).cls[i])],
                             rest, s.bind, s.cps)}
-    [] IsUserKey(s, key) ->
-         \* observable: a call of a user predicate. The clause sequence is snapshot here (logical update view).
-         {[TryClauses(s, g, Pred(s.db, key).cls, rest, s.bind, s.cps)
-             EXCEPT !.ev = [ev |-> "call", goal |-> Canon(g, s.bind), out |-> s.out], !.out = <<>>]}
-    [] OTHER -> {Throw(s, ExistProc(key))}     \* unknown procedure (flag unknown = error); not a logged call
+    [] HasPred(s.db, key) ->
+         \* observable: the call port of a user predicate. The clause sequence is snapshot here (logical update view).
+         {LET t == TryClauses(s, g, Pred(s.db, key).cls, rest, s.bind, s.cps) IN
+          IF t.status = "sto" THEN t
+          ELSE [t EXCEPT !.ev = [ev |-> "call", goal |-> Canon(g, s.bind), out |-> s.out], !.out = <<>>]}
+    [] OTHER ->
+         \* unknown procedure (flag unknown = error). The call port is observable iff the procedure belonged to the
+         \* program text (it may have been abolished meanwhile): that is the set the recorder filters by.
+         {IF key \in s.ukeys
+          THEN [Throw(s, ExistProc(key)) EXCEPT !.ev = [ev |-> "call", goal |-> Canon(g, s.bind), out |-> s.out], !.out = <<>>]
+          ELSE Throw(s, ExistProc(key))}
 
 \* after an answer the consumer either asks for more (backtrack) or closes
 Steps(s) ==
@@ -390,9 +425,13 @@ Steps(s) ==
            [Silent(s) EXCEPT !.status = "closed", !.ev = [ev |-> "end", kind |-> "closed", out |-> <<>>]] }
     [] OTHER -> {}
 
-Terminal(s) == s.status \in {"done", "error", "closed", "sto"}
+Terminal(s) == s.status \in {"done", "error", "closed", "sto", "unspec"}
+Judged(s) == s.status \in {"done", "error", "closed"}     \* terminal states whose behaviour the properties determine
 
-InitState(db, query, qv) ==
-  [goals |-> <<Frame(C("call", <<query>>), 0)>>, bind |-> Fresh(qv), cps |-> <<>>, db |-> db, out |-> <<>>,
-   nid |-> 1000, status |-> "run", ball |-> TrueA, ev |-> NoEv, qv |-> qv]
+\* the query's variables are store slots 1..n; the first qv of them are reported in answers
+InitStateX(db, query, qv, n) ==
+  [goals |-> <<Frame(C("call", <<query>>), 0)>>, bind |-> Fresh(n), cps |-> <<>>, db |-> db, out |-> <<>>,
+   nid |-> 1000, status |-> "run", ball |-> TrueA, ev |-> NoEv, qv |-> qv,
+   ukeys |-> { db[i].key : i \in 1..Len(db) }]
+InitState(db, query, qv) == InitStateX(db, query, qv, qv)
 =============================================================================
